@@ -146,7 +146,16 @@ def is_consecutive(bins: ArrayLike, rtol: float = 1.0e-5, atol: float = 1.0e-8) 
         return True
     else:
         bins = make_bin_array(bins)
-        return np.allclose(bins[1:, 0], bins[:-1, 1], rtol, atol)
+        if bins.shape[0] < 2:
+            return True
+        # A gap is judged against the bins around it, not against the size of the edges
+        widths = bins[:, 1] - bins[:, 0]
+        gaps = np.abs(bins[1:, 0] - bins[:-1, 1])
+        tolerance = np.maximum(
+            rtol * 1e-4 * np.minimum(widths[1:], widths[:-1]),
+            4 * np.spacing(np.abs(bins[:-1, 1])),
+        )
+        return bool(np.all(gaps <= tolerance))
 
 
 def is_bin_subset(sub: ArrayLike, sup: ArrayLike) -> bool:
